@@ -351,14 +351,40 @@ def r25_7(ctx):
     w = repo.mod("dask_array.io._to_npy_stack").func("to_npy_stack")
     rm = repo.mod("dask_array.io._from_npy_stack")
     rc = rm.cls("FromNpyStack")
-    # (a) keys
+    # (a) keys - the record may be written by to_npy_stack itself or by a module-local helper it hands the record to
+    from .common import with_helpers
+
+    wfuncs = with_helpers(w, depth=1)
+
+    def dict_keys_of(e, f, depth=2):
+        """Constant keys of the dict that expression ``e`` (in function f) denotes: a literal, a local bound to a
+        literal, or a parameter whose argument at f's call sites in to_npy_stack is one."""
+        if isinstance(e, ast.Dict):
+            return {k.value for k in e.keys if isinstance(k, ast.Constant)}
+        if isinstance(e, ast.Call) and dotted(e.func) == "dict" and not e.args:
+            return {k.arg for k in e.keywords if k.arg}
+        if isinstance(e, ast.Name) and depth:
+            out = set()
+            for n in body_walk(f.node):
+                if isinstance(n, ast.Assign) and any(isinstance(t, ast.Name) and t.id == e.id for t in n.targets):
+                    out |= dict_keys_of(n.value, f, depth - 1)
+            formals = [a.arg for a in f.node.args.args]
+            if e.id in formals and f is not w:
+                i = formals.index(e.id)
+                for n in body_walk(w.node):
+                    if isinstance(n, ast.Call) and dotted(n.func) == f.name:
+                        a = n.args[i] if i < len(n.args) else next((k.value for k in n.keywords if k.arg == e.id), None)
+                        if a is not None:
+                            out |= dict_keys_of(a, w, depth - 1)
+            return out
+        return set()
+
     written = set()
-    for n in body_walk(w.node):
-        if isinstance(n, ast.Assign) and isinstance(n.value, ast.Dict) and any(isinstance(c, ast.Call) and (dotted(c.func) or "").endswith("pickle.dump") and c.args and unparse(c.args[0]) == unparse(n.targets[0]) for c in body_walk(w.node)):
-            written |= {k.value for k in n.value.keys if isinstance(k, ast.Constant)}
-        if isinstance(n, ast.Call) and (dotted(n.func) or "").endswith("pickle.dump") and n.args and isinstance(n.args[0], ast.Dict):
-            written |= {k.value for k in n.args[0].keys if isinstance(k, ast.Constant)}
-    need(written, "to_npy_stack writes an info record (dict literal handed to pickle.dump)")
+    for f in wfuncs:
+        for n in body_walk(f.node):
+            if isinstance(n, ast.Call) and (dotted(n.func) or "").endswith("pickle.dump") and n.args:
+                written |= dict_keys_of(n.args[0], f)
+    need(written, "to_npy_stack writes an info record (dict handed to pickle.dump)")
     read = {}
     for f in rc.methods.values():
         aliases = {"self._info"}
@@ -390,9 +416,9 @@ def r25_7(ctx):
                             out.append(leaf)
         return out
 
-    w_info = [l for n in ast.walk(w.node) if isinstance(n, ast.Call) and dotted(n.func) == "open" and n.args for l in [_join_leaf(n.args[0])] if l is not None]
+    w_info = [l for f in wfuncs for n in ast.walk(f.node) if isinstance(n, ast.Call) and dotted(n.func) == "open" and n.args for l in [_join_leaf(n.args[0])] if l is not None]
     r_info = [l for f in rc.methods.values() for n in ast.walk(f.node) if isinstance(n, ast.Call) and dotted(n.func) == "open" and n.args for l in [_join_leaf(n.args[0])] if l is not None]
-    w_blk = leafs(w.node, "np.save")
+    w_blk = [l for f in wfuncs for l in leafs(f.node, "np.save")]
     r_blk = [l for f in rc.methods.values() for l in leafs(f.node, "np.load")]
     need(w_info and r_info and w_blk and r_blk, "npy-stack file-name expressions (open(join(dirname, ...)), np.save / np.load tasks)")
     for what, ws, rs in (("info file", w_info, r_info), ("block file", w_blk, r_blk)):
